@@ -13,7 +13,7 @@ META = {
     'required_obs': {'quick': ['cmp-dict', 'cmp-struct', 'cmp-hdf5', 'cmp-inline-window', 'window-dict', 'window-struct',
                                'window-hdf5', 'window-inline', 'permuted', 'extra-datasets', 'mapping', 'open-ended',
                                'frames-decoded', 'fastpath-permuted', 'fastpath-aligned', 'fastpath-view', 'fastpath-packed', 'same-data-object-reused',
-                               'repeated-channel-names', 'repeated-channel-names-across-sets', 'paths-as-Path', 'int-cast-out-of-range', 'consecutive-windows-one-file',
+                               'repeated-channel-names', 'repeated-channel-names-across-sets', 'paths-as-Path', 'int-cast-out-of-range', 'float-cast-out-of-range', 'float-cast-reference-written', 'float-cast-reference-refused', 'consecutive-windows-one-file',
                                'index-channel-with-units', 'permuted-dataset-names']},
     'exhaustive_windows': {'quick': ['all windows 0 <= from < to <= N for N = 4, every source kind'],
                            'thorough': ['all windows 0 <= from < to <= N for N in 1..6, every source kind x input chunk {None,1,2}']},
@@ -37,6 +37,9 @@ def cases(tier, seed):
     # declared integer casts of out-of-range values: the conversion must not depend on the kind of source
     for k in range(40 if tier == 'quick' else 1000):
         yield {'stratum': 'int-cast-out-of-range', 'index': k, 'kind': 'int-cast'}
+    # declared casts of floats, some of which the target cannot hold: refused or written, the same for every kind of source
+    for k in range(60 if tier == 'quick' else 1500):
+        yield {'stratum': 'float-cast-out-of-range', 'index': k, 'kind': 'float-cast'}
     # ONE DLISFile written several times with consecutive row windows (the data split over several files)
     for k in range(40 if tier == 'quick' else 1000):
         yield {'stratum': 'consecutive-windows-one-file', 'index': k, 'kind': 'consecutive'}
@@ -175,6 +178,21 @@ def run_case(case):
             sp['write'].update({'source': src, 'perm_seed': None, 'extra': 0, 'input_chunk_size': r.choice(gen.chunk_choices(N))})
             compare(ref, sp, src, f'int-cast:{src}', True, decode=True)
         sample = {'kind': 'int cast', 'rows': N, 'channels': [(o['name'], o['data']['dtype'], o.get('cast_dtype')) for o in base['ops'] if o['op'] == 'channel'][:6]}
+    elif case['kind'] == 'float-cast':
+        r = gen.rng(seed, PROP, case['stratum'], case['index'])
+        base, xi, src_dt, dst, nbad = gen.float_cast_spec(r, sources=('inline',))
+        N = base['ops'][xi]['data']['shape'][0]
+        win = {k_: base['write'][k_] for k_ in ('from_idx', 'to_idx') if k_ in base['write']}
+        base['write'] = dict({'source': 'inline', 'output_chunk_size': 2 ** 16}, **win)
+        ref = run(base)
+        bump('float-cast-out-of-range')
+        bump('float-cast-reference-' + ('written' if ref.data is not None else 'refused'))
+        for src in ['inline', 'dict', 'struct', 'hdf5']:
+            sp = copy.deepcopy(base)
+            sp['write'].update({'source': src, 'perm_seed': None, 'extra': r.choice([0, 1]), 'input_chunk_size': r.choice(gen.chunk_choices(N)),
+                                'struct_variant': r.choice([None, 'aligned', 'view']) if src == 'struct' else None})
+            compare(ref, sp, src, f'float-cast:{src}:{dst}:{"refused" if ref.data is None else "written"}', True, decode=True)
+        sample = {'kind': 'float cast', 'rows': N, 'cast': [src_dt, dst], 'out-of-range values': nbad}
     elif case['kind'] == 'consecutive':
         from vf import spec as S
         r = gen.rng(seed, PROP, case['stratum'], case['index'])
